@@ -49,12 +49,14 @@ pub enum Msg {
     Resp(Request<u8>, Response),
 }
 
-#[derive(Clone)]
-pub struct Packet {
+pub struct PacketData {
     pub msg: Msg,
     /// complete canonical encoding of the message
     pub enc: Vec<u8>,
 }
+
+/// in-flight messages are immutable: worlds share them
+pub type Packet = std::sync::Arc<PacketData>;
 
 #[derive(Clone, Copy, PartialEq, Eq, PartialOrd, Ord, Debug, Hash)]
 pub enum Event {
@@ -236,7 +238,7 @@ pub fn packet(msg: Msg) -> Packet {
             p.v_encode(&mut enc);
         }
     }
-    Packet { msg, enc }
+    std::sync::Arc::new(PacketData { msg, enc })
 }
 
 pub fn kind_name(k: u8) -> &'static str {
@@ -314,13 +316,13 @@ impl World {
     pub fn proc_effective(&self, i: usize) -> bool {
         self.clock(i);
         let mut c = self.nodes[i].clone();
-        let mut before = vec![];
+        let mut before = Vec::with_capacity(256);
         self.enc_node(i, &self.nodes[i], &mut before);
         let out = c.process();
         if out.is_some() {
             return true;
         }
-        let mut after = vec![];
+        let mut after = Vec::with_capacity(256);
         self.enc_node(i, &c, &mut after);
         before != after
     }
